@@ -9,7 +9,7 @@
    call combines" (`vadd W64 x y = padd x y`, `znx_rotate W64 k x = xmono k x`, ...); `C02_step_exact_small` discharges all
    of them when every stored word is below 2^62 in magnitude.  None = the call panics. *)
 From PV Require Import Base.MachineInt Model.Znx Model.Limbs Model.Flat Model.Ring Model.DftAbs Model.C02Ops
-                       Proofs.C02Poly Proofs.C02Exact Proofs.C02Canon Proofs.C02Phase Proofs.C02Value Proofs.C02Main.
+                       Proofs.C02Poly Proofs.C02Exact Proofs.C02Canon Proofs.C02Phase Proofs.C02Value Proofs.C02Main Proofs.C02Discharge.
 Open Scope Z_scope.
 
 (* ------------------------------------------------------------------ ring facts the phase theorems rest on *)
@@ -56,25 +56,20 @@ Theorem C02_phase_sub_assign : forall (n : nat) (s : list (list Z)), secret_ok n
 Proof. exact phase_sub_assign. Qed.
 Print Assumptions C02_phase_sub_assign.
 
-(* res <- a - res: holds when the ranks agree ... *)
-Theorem C02_phase_sub_negate_assign_partial : forall (n : nat) (s : list (list Z)), secret_ok n s ->
-  forall res a r, wf_glwe n res -> wf_glwe n a -> g_ncols a = g_ncols res ->
+(* res <- a - res, also with a rank-0 (plaintext) operand: the mask columns of res are negated (repair efc2285 in /repo;
+   before it this statement was refuted on the model, witness n = 1, res = (5,7), a = (1), s = (1): phase 3 instead of -11) *)
+Theorem C02_phase_sub_negate_assign : forall (n : nat) (s : list (list Z)), secret_ok n s ->
+  forall res a r, wf_glwe n res -> wf_glwe n a ->
   (forall i j, vsub W64 (gl n a i j) (gl n res i j) = psub (gl n a i j) (gl n res i j)) ->
   glwe_sub_negate_assign n res a = Some r ->
   phase n s r = pt_map2 Fsub n (g_size res) (phase n s a) (phase n s res).
 Proof. exact phase_sub_negate_assign. Qed.
-Print Assumptions C02_phase_sub_negate_assign_partial.
-(* ... the full statement (also the accepted case a.rank = 0 < res.rank) is FALSE on the code as it is: *)
-Definition C02_phase_sub_negate_assign_full : Prop := forall (n : nat) (s : list (list Z)), secret_ok n s ->
-  forall res a r, wf_glwe n res -> wf_glwe n a -> gsmall res -> gsmall a ->
-  glwe_sub_negate_assign n res a = Some r ->
-  phase n s r = pt_map2 Fsub n (g_size res) (phase n s a) (phase n s res).
-Theorem C02_sub_negate_assign_rank0_refuted :
-  exists n s res a r, secret_ok n s /\ wf_glwe n res /\ wf_glwe n a /\ gsmall res /\ gsmall a /\
-    g_rank a = 0%nat /\ glwe_sub_negate_assign n res a = Some r /\
-    phase n s r <> pt_map2 Fsub n (g_size res) (phase n s a) (phase n s res).
-Proof. exact sub_negate_assign_rank0_refuted. Qed.
-Print Assumptions C02_sub_negate_assign_rank0_refuted.
+Print Assumptions C02_phase_sub_negate_assign.
+
+Example C02_sub_negate_assign_rank0_instance :
+  exists r, glwe_sub_negate_assign 1 cx_res cx_a = Some r /\ phase 1 [[1]] r = [[-11]] /\
+            phase 1 [[1]] r = pt_map2 Fsub 1 (g_size cx_res) (phase 1 [[1]] cx_a) (phase 1 [[1]] cx_res).
+Proof. exact sub_negate_assign_rank0_instance. Qed.
 
 Theorem C02_phase_negate : forall (n : nat) (s : list (list Z)), secret_ok n s ->
   forall res a r, wf_glwe n res -> wf_glwe n a ->
@@ -157,7 +152,6 @@ Theorem C02_step_exact_small : forall n opc k res a b F ix iy,
   exact_F opc k = Some (F, ix, iy) ->
   wf_glwe n res -> wf_glwe n a -> wf_glwe n b ->
   gsmall res -> gsmall a -> gsmall b ->
-  (opc = 5 -> g_ncols a = g_ncols res) ->
   step_exact n opc k res a b.
 Proof. exact step_exact_small. Qed.
 Print Assumptions C02_step_exact_small.
@@ -182,53 +176,79 @@ Theorem C02_phase_program : forall (n : nat) (s : list (list Z)), secret_ok n s 
 Proof. exact prog_phase. Qed.
 Print Assumptions C02_phase_program.
 
-(* ------------------------------------------------------------------ shift / normalise (also cross radix), from the per-column value statement.
-   `column_value_stmt rb ab off keep sgn P u f guard` is the per-coefficient theorem of C08 for the kernel f:
-   val(out) = keep*val(r0) + sgn*2^off*val(a) + e (mod 1), |e| <= u   (u = one unit of the last limb of the result when limbs are
-   truncated, 0 otherwise).  Conclusion: the phase of the values satisfies the same relation, with an error bounded by
-   err_bound u s ncols = u * (1 + sum_{i < rank} ||s_i||_1)  --  one unit per truncated column, reaching the phase through the secret. *)
-(* opcodes 13..17 = glwe_rsh, glwe_lsh_assign, glwe_lsh, glwe_lsh_add, glwe_lsh_sub:
-   val(phase(r)) = keep*val(phase(res)) + sgn * 2^(+-k) * val(phase(a)) + E  (mod 1), all values scaled by 2^P *)
-Theorem C02_phase_shift : forall n s opc scr k res a b r P u guard,
-  13 <= opc <= 17 -> 0 <= u ->
-  column_value_stmt (g_b res) (if sn_inplace opc then g_b res else g_b a) (sn_off opc k) (sn_keep opc) (sn_sgn opc) P u
-                    (sn_kernel opc (g_b res) (g_b a) k) guard ->
-  secret_ok n s -> wf_glwe n res -> wf_glwe n a ->
-  (sn_inplace opc = false -> g_ncols a = g_ncols res) ->
-  (forall i t, (i < g_ncols res)%nat -> (t < n)%nat ->
-     guard (coeff_limbs (gcol (if sn_inplace opc then res else a) i) t) (coeff_limbs (gcol res i) t)) ->
+(* ------------------------------------------------------------------ shift / normalise.
+   Values: a limb list in radix 2^b denotes sum_j x_j 2^(-(j+1)b); `valp P b n c` is the polynomial of these values scaled by 2^P,
+   `phase` is the limb-wise phase.  Statement:  val(phase(r)) = keep*val(phase(res)) + sgn * 2^off * val(phase(src)) + E  (mod 1),
+   src = res for the in-place forms, = a otherwise; (off, keep, sgn) = (-k,0,1) rsh, (k,0,1) lsh_assign / lsh, (k,1,1) lsh_add,
+   (k,1,-1) lsh_sub, (0,0,1) normalize(_assign).  |E_t| <= err_bound u s ncols(src) = u * (1 + sum_{i < rank(src)} ||s_i||_1), where
+   u = sn_u = 0 when nothing is truncated (every bit of 2^off * src fits in res) and one unit 2^(P - size(res)*b) of the last limb
+   of res otherwise: one unit per truncated column, reaching the phase through the secret (C02_pmul_bound).  `a` may have a lower
+   rank than res (e.g. a plaintext): glwe_lsh zero-fills, glwe_lsh_add / glwe_lsh_sub keep the columns `a` does not have. *)
+
+(* opcodes 13..17 = glwe_rsh, glwe_lsh_assign, glwe_lsh, glwe_lsh_add, glwe_lsh_sub: UNCONDITIONAL
+   (column_value_ok discharged with C08's rsh_assign_value, lsh_assign_value, lsh_value, lsh_sub_value) *)
+Theorem C02_phase_shift : forall n s opc scr k res a b r P,
+  13 <= opc <= 17 -> 1 <= g_b res <= 62 -> 0 <= k ->
+  secret_ok n s -> wf_glwe n res -> wf_glwe n a -> gsmall res -> gsmall (sn_src opc res a) ->
+  1 <= P -> 2 * Z.of_nat (g_size res) * g_b res + Z.of_nat (g_size (sn_src opc res a)) * g_b res + k <= P ->
   exec_op opc n scr k res a b = Some r ->
   wf_glwe n r /\
   forall t, exists E M,
     nthZ (valp P (g_b res) n (phase n s r)) t =
       sn_keep opc * nthZ (valp P (g_b res) n (phase n s res)) t +
-      sn_sgn opc * nthZ (valp (P + sn_off opc k) (if sn_inplace opc then g_b res else g_b a) n
-                              (phase n s (if sn_inplace opc then res else a))) t +
+      sn_sgn opc * nthZ (valp (P + sn_off opc k) (g_b res) n (phase n s (sn_src opc res a))) t +
       E + M * 2 ^ P /\
-    Z.abs E <= err_bound u s (g_ncols res).
-Proof. intros n s opc scr k res a b r P u guard Ho. apply exec_op_phase_value_limbs. lia. Qed.
+    Z.abs E <= err_bound (sn_u opc (g_b res) k (g_size res) (g_size (sn_src opc res a)) P) s (g_ncols (sn_src opc res a)).
+Proof. exact phase_shift_unconditional. Qed.
 Print Assumptions C02_phase_shift.
 
-(* opcodes 18, 19 = glwe_normalize (same or different radix), glwe_normalize_assign *)
-Theorem C02_phase_normalize : forall n s opc scr k res a b r P u guard,
-  18 <= opc <= 19 -> 0 <= u ->
-  column_value_stmt (g_b res) (if sn_inplace opc then g_b res else g_b a) (sn_off opc k) (sn_keep opc) (sn_sgn opc) P u
-                    (sn_kernel opc (g_b res) (g_b a) k) guard ->
-  secret_ok n s -> wf_glwe n res -> wf_glwe n a ->
-  (sn_inplace opc = false -> g_ncols a = g_ncols res) ->
-  (forall i t, (i < g_ncols res)%nat -> (t < n)%nat ->
-     guard (coeff_limbs (gcol (if sn_inplace opc then res else a) i) t) (coeff_limbs (gcol res i) t)) ->
+(* opcodes 18, 19 = glwe_normalize, glwe_normalize_assign, res and a in the SAME radix: UNCONDITIONAL
+   (C08's normalize_inter_value at offset 0, normalize_assign_value) *)
+Theorem C02_phase_normalize : forall n s opc scr k res a b r P,
+  18 <= opc <= 19 -> 1 <= g_b res <= 62 -> 0 <= k ->
+  (sn_inplace opc = false -> g_b a = g_b res) ->
+  secret_ok n s -> wf_glwe n res -> wf_glwe n a -> gsmall res -> gsmall (sn_src opc res a) ->
+  1 <= P -> 2 * Z.of_nat (g_size res) * g_b res + Z.of_nat (g_size (sn_src opc res a)) * g_b res + k <= P ->
   exec_op opc n scr k res a b = Some r ->
   wf_glwe n r /\
   forall t, exists E M,
     nthZ (valp P (g_b res) n (phase n s r)) t =
       sn_keep opc * nthZ (valp P (g_b res) n (phase n s res)) t +
-      sn_sgn opc * nthZ (valp (P + sn_off opc k) (if sn_inplace opc then g_b res else g_b a) n
-                              (phase n s (if sn_inplace opc then res else a))) t +
+      sn_sgn opc * nthZ (valp (P + sn_off opc k) (g_b res) n (phase n s (sn_src opc res a))) t +
       E + M * 2 ^ P /\
-    Z.abs E <= err_bound u s (g_ncols res).
-Proof. intros n s opc scr k res a b r P u guard Ho. apply exec_op_phase_value_limbs. lia. Qed.
+    Z.abs E <= err_bound (sn_u opc (g_b res) k (g_size res) (g_size (sn_src opc res a)) P) s (g_ncols (sn_src opc res a)).
+Proof. intros n s opc scr k res a b r P Ho. apply phase_shift_normalize_same_radix. lia. Qed.
 Print Assumptions C02_phase_normalize.
+
+(* any radix pair (glwe_normalize into a DIFFERENT radix included): from the per-coefficient value statement of the kernel.
+   `column_value_stmt rb ab off keep sgn P u f guard` is what remains to be proved in C08 for vec_znx_normalize_cross_base2k
+   (C08 has totality, no value theorem yet); for equal radices it is C02_column_value_same_radix below. *)
+Theorem C02_phase_normalize_any_radix_from_column_value : forall n s opc scr k res a b r P u guard,
+  13 <= opc <= 19 -> 0 <= u ->
+  column_value_stmt (g_b res) (g_b (sn_src opc res a)) (sn_off opc k) (sn_keep opc) (sn_sgn opc) P u
+                    (sn_kernel opc (g_b res) (g_b a) k) guard ->
+  secret_ok n s -> wf_glwe n res -> wf_glwe n a ->
+  (forall i t, (i < g_ncols (sn_src opc res a))%nat -> (t < n)%nat ->
+     guard (coeff_limbs (gcol (sn_src opc res a) i) t) (coeff_limbs (gcol res i) t)) ->
+  exec_op opc n scr k res a b = Some r ->
+  wf_glwe n r /\
+  forall t, exists E M,
+    nthZ (valp P (g_b res) n (phase n s r)) t =
+      sn_keep opc * nthZ (valp P (g_b res) n (phase n s res)) t +
+      sn_sgn opc * nthZ (valp (P + sn_off opc k) (g_b (sn_src opc res a)) n (phase n s (sn_src opc res a))) t +
+      E + M * 2 ^ P /\
+    Z.abs E <= err_bound u s (g_ncols (sn_src opc res a)).
+Proof. exact exec_op_phase_value_limbs. Qed.
+Print Assumptions C02_phase_normalize_any_radix_from_column_value.
+
+(* the discharged hypothesis: C08's per-coefficient theorems in the form the Section hypothesis `column_value_ok` asks for *)
+Theorem C02_column_value_same_radix : forall opc b k (rsz asz : nat) P,
+  13 <= opc <= 19 -> 1 <= b <= 62 -> 0 <= k -> 1 <= P ->
+  2 * Z.of_nat rsz * b + Z.of_nat asz * b + k <= P ->
+  column_value_stmt b b (sn_off opc k) (sn_keep opc) (sn_sgn opc) P (sn_u opc b k rsz asz P)
+                    (sn_kernel opc b b k) (sn_guard opc rsz asz).
+Proof. exact sn_column_value. Qed.
+Print Assumptions C02_column_value_same_radix.
 
 (* the value of the limb-wise phase is the phase of the values (val is a homomorphism of Z[X]/(X^n+1)-modules) *)
 Theorem C02_value_of_phase : forall (n : nat) (s : list (list Z)) (P b : Z) (g : glwe),
@@ -280,7 +300,7 @@ Proof.
   destruct ex_wf as (Hs & Wr & Wa & Wb & Sr & Sa & Sb).
   eexists. split; [vm_compute; reflexivity|]. split; [|vm_compute; reflexivity].
   refine (proj2 (C02_phase_exact_op 4 ex_s Hs 1 0 0 ex_res ex_a ex_b _ Fadd 1%nat 2%nat eq_refl Wr Wa Wb _ _)).
-  - apply (C02_step_exact_small 4 1 0 ex_res ex_a ex_b Fadd 1%nat 2%nat eq_refl); auto; discriminate.
+  - apply (C02_step_exact_small 4 1 0 ex_res ex_a ex_b Fadd 1%nat 2%nat eq_refl); auto.
   - vm_compute. reflexivity.
 Qed.
 
@@ -292,7 +312,7 @@ Proof.
   destruct ex_wf as (Hs & Wr & Wa & Wb & Sr & Sa & Sb).
   eexists. split; [vm_compute; reflexivity|]. split; [|vm_compute; reflexivity].
   refine (proj2 (C02_phase_exact_op 4 ex_s Hs 9 0 (-11) ex_res ex_a ex_b _ (Frot (-11)) 1%nat 1%nat eq_refl Wr Wa Wb _ _)).
-  - apply (C02_step_exact_small 4 9 (-11) ex_res ex_a ex_b (Frot (-11)) 1%nat 1%nat eq_refl); auto; discriminate.
+  - apply (C02_step_exact_small 4 9 (-11) ex_res ex_a ex_b (Frot (-11)) 1%nat 1%nat eq_refl); auto.
   - vm_compute. reflexivity.
 Qed.
 
@@ -316,3 +336,20 @@ Example C02_ex_rsh_numeric :
   | None => false
   end = true.
 Proof. vm_compute. reflexivity. Qed.
+
+(* the unconditional shift theorem applies: right shift by 5 bits of the 3-limb rank-2 ciphertext ex_a (radix 2^8), P = 100 *)
+Example C02_ex_shift_theorem : exists r, exec_op 13 4 4096 5 ex_a ex_a ex_a = Some r /\
+  forall t, exists E M,
+    nthZ (valp 100 8 4 (phase 4 ex_s r)) t = nthZ (valp (100 + - 5) 8 4 (phase 4 ex_s ex_a)) t + E + M * 2 ^ 100 /\
+    Z.abs E <= err_bound (2 ^ (100 - 3 * 8)) ex_s 3.
+Proof.
+  destruct ex_wf as (Hs & Wr & Wa & Wb & Sr & Sa & Sb).
+  destruct (exec_op 13 4 4096 5 ex_a ex_a ex_a) as [rr|] eqn:He; [|exfalso; vm_compute in He; discriminate].
+  exists rr. split; [reflexivity|]. intros t.
+  assert (Hsz : 2 * Z.of_nat (g_size ex_a) * g_b ex_a + Z.of_nat (g_size (sn_src 13 ex_a ex_a)) * g_b ex_a + 5 <= 100)
+    by (vm_compute; discriminate).
+  assert (Hb : 1 <= g_b ex_a <= 62) by (cbn [g_b ex_a]; lia).
+  destruct (C02_phase_shift 4 ex_s 13 4096 5 ex_a ex_a ex_a rr 100 ltac:(lia) Hb ltac:(lia) Hs Wa Wa Sa Sa ltac:(lia) Hsz He) as (_ & H).
+  destruct (H t) as (E & M & HE & HB). exists E, M. split; [|exact HB].
+  cbn [sn_keep sn_sgn sn_off sn_src sn_inplace Z.eqb Pos.eqb orb g_b ex_a Z.opp] in HE. lia.
+Qed.
